@@ -13,6 +13,7 @@ import (
 	gomavlib "github.com/bluenviron/gomavlib/v3"
 	"github.com/bluenviron/gomavlib/v3/pkg/dialects/ardupilotmega"
 	"github.com/bluenviron/gomavlib/v3/pkg/dialects/common"
+	"github.com/bluenviron/gomavlib/v3/pkg/frame"
 	"pgregory.net/rapid"
 
 	"verifharness/evid"
@@ -209,6 +210,33 @@ func runC13Dying(nch int, victims []int, gateVictim bool, warm int, ops []int) e
 	if !okc {
 		return fmt.Errorf("after the consumer resumed, not every failed channel (%v) was reported by a close event carrying an error within %v", victims, bound)
 	}
+	// the application still holds the handles of the channels that failed: "everything but that one" now simply means
+	// everything, and the healthy channels keep receiving it
+	base := make([]int, nch)
+	for i, p := range pipes {
+		base[i] = p.NumWrites()
+	}
+	const tail = 4
+	for k := 0; k < tail; k++ {
+		m := &common.MessageDebug{TimeBootMs: uint32(5000 + k), Ind: 1}
+		var err error
+		if k%2 == 0 {
+			err = n.WriteMessageExcept(chans[victims[0]], m)
+		} else {
+			err = n.WriteFrameExcept(chans[victims[len(victims)-1]], &frame.V2Frame{SequenceNumber: byte(k), SystemID: 3, ComponentID: 4, Message: m})
+		}
+		if err != nil {
+			return fmt.Errorf("write excepting a channel that has failed and been reported: %v", err)
+		}
+	}
+	for i, p := range pipes {
+		if isVictim[i] {
+			continue
+		}
+		if !p.WaitWrites(base[i]+tail, bound) {
+			return fmt.Errorf("healthy channel %d received %d of %d items written with \"all but <a channel that has failed and been reported closed>\"", i, p.NumWrites()-base[i], tail)
+		}
+	}
 	return nil
 }
 
@@ -253,6 +281,29 @@ func TestC13BlockedWriterThenReadFailure(t *testing.T) {
 		rec.Case(true, evid.HashS(desc), "blocked-writer-then-read-failure")
 		if rec.WantSample("blocked-writer-then-read-failure") {
 			rec.Sample("blocked-writer-then-read-failure", desc)
+		}
+	})
+}
+
+// TestC11ClosedChannelLeavesNothing is the same scenario read as a fan-out statement: what was written to a channel
+// reaches that channel or nothing; a channel that opens later receives only what is written while it exists.
+func TestC11ClosedChannelLeavesNothing(t *testing.T) {
+	rec := evid.New(t, "C11", "a serial link beside a healthy custom link: the serial device blocks, 3..80 items are written to all links (the serial channel's queue fills behind its parked writer), its Read fails, the channel is closed and a fresh channel opens on a fresh device handle; 1..10 items written afterwards must be exactly what the fresh channel's wire carries - nothing that was queued for the dead channel may surface on another one; non-trivial = always; distinct by hash of the parameters")
+	rec.Require("queue-of-a-dead-channel")
+	c14Hook()
+	evid.Check(t, rec, evid.N(30, 120), func(t *rapid.T) {
+		drawNodeInit(t)
+		nitems := rapid.IntRange(3, 80).Draw(t, "items")
+		after := rapid.IntRange(1, 10).Draw(t, "after")
+		desc := fmt.Sprintf("items while blocked=%d, items after the fresh channel=%d", nitems, after)
+		err := watchdog(scenarioLimit, func() error { return runC13BlockedThenReadFail(nitems, after) })
+		if err != nil {
+			evid.ReplayNote("C11", "TestC11ClosedChannelLeavesNothing", desc+"\n"+err.Error())
+			t.Fatalf("%s\n%v", desc, err)
+		}
+		rec.Case(true, evid.HashS(desc), "queue-of-a-dead-channel")
+		if rec.WantSample("queue-of-a-dead-channel") {
+			rec.Sample("queue-of-a-dead-channel", desc)
 		}
 	})
 }
@@ -353,6 +404,18 @@ func runC13BlockedThenReadFail(nitems, after int) error {
 	}
 	if !fresh.WaitWrites(after, bound) {
 		return fmt.Errorf("the fresh serial channel received %d of %d items", fresh.NumWrites(), after)
+	}
+	time.Sleep(3 * time.Millisecond)
+	got, err := debugCounters(fresh)
+	if err != nil {
+		return fmt.Errorf("fresh serial channel: %v", err)
+	}
+	var want []int
+	for k := 0; k < after; k++ {
+		want = append(want, 1000+k)
+	}
+	if fmt.Sprint(got) != fmt.Sprint(want) {
+		return fmt.Errorf("the fresh channel's wire carries items %v; only %v were written while it existed (what was queued for the dead channel died with it)", got, want)
 	}
 	if devPipe.CloseCount() < 1 {
 		return fmt.Errorf("the dead device handle was never closed")
